@@ -30,7 +30,9 @@ type simFile struct {
 	openErr  error
 	readErr  int // >=0: the reader fails after this many bytes
 	chunk    int // reader hands out at most this many bytes per Read (0: unlimited)
-	stats    *zipIOStats
+	// eofWithData: the reader returns the last bytes together with io.EOF (io.Reader allows it)
+	eofWithData bool
+	stats       *zipIOStats
 }
 
 // zipIOStats is shared by all files of a run. Nothing says that the code under test touches the files
@@ -122,6 +124,9 @@ func (r *simReader) Read(p []byte) (int, error) {
 		r.grew = true
 		f.stats.hit("grew") // more bytes delivered than Lstat reported
 	}
+	if f.eofWithData && r.off >= total && !(f.readErr >= 0 && int64(f.readErr) <= total) {
+		return int(n), io.EOF
+	}
 	return int(n), nil
 }
 func (r *simReader) Close() error { r.closed = true; return nil }
@@ -203,6 +208,10 @@ var zipGoVersions = []struct {
 	{"this is not a go.mod file (((\n", ""},
 	{"module example.com/m\ngo 1.24\nunknown directive here\n", "1.24"},
 	{"", ""},
+	// unparsable as a whole although a go line is intact: no version applies
+	{"module example.com/m\n\ngo 1.24\n\nrequire (\n\texample.com/x v1.0.0\n", ""},
+	{"module example.com/m\ngo 1.24\ngo 1.23\n", ""},
+	{"go 1.24\nmodule example.com/m\nmodule example.com/n\n", ""},
 }
 
 var zipModules = []struct {
